@@ -279,18 +279,19 @@ func (g *gen) tieCoeff() *big.Int {
 }
 
 func (g *gen) randExp() int {
-	switch g.r.Intn(12) {
-	case 0, 1, 2:
+	switch g.r.Intn(24) {
+	case 0, 1, 2, 3, 4, 5:
 		return 0
-	case 3, 4, 5:
+	case 6, 7, 8, 9, 10, 11:
 		return g.r.Intn(9) - 4
-	case 6, 7, 8:
+	case 12, 13, 14, 15, 16, 17:
 		return g.r.Intn(81) - 40
-	case 9:
+	case 18, 19:
 		return g.r.Intn(401) - 200
-	case 10:
+	case 20, 21, 22:
 		return -g.r.Intn(40)
 	default:
+		// rare: the extracted model needs ~0.2 s for 10^2000
 		return g.r.Intn(2*g.bigE+1) - g.bigE
 	}
 }
